@@ -91,6 +91,7 @@ func (c *c11Cache) Set(_ context.Context, key string, value []byte, _ time.Durat
 type c11TokInfo struct {
 	Active bool     `json:"active"`
 	Scopes []string `json:"scopes"`
+	Aud    []string `json:"aud"`
 }
 
 type c11Env struct {
@@ -167,7 +168,7 @@ func c11NewEnv() *c11Env {
 			token := form["token"]
 			info := tok[token]
 			out := map[string]any{"active": info.Active, "sub": token, "iss": "iss1", "scope": strings.Join(info.Scopes, " "),
-				"exp": time.Now().Unix() + 3600, "e": e}
+				"aud": info.Aud, "exp": time.Now().Unix() + 3600, "e": e}
 			json.NewEncoder(w).Encode(out)
 		case strings.HasPrefix(r.URL.Path, "/g/"):
 			cred := "nobody"
@@ -175,13 +176,15 @@ func c11NewEnv() *c11Env {
 				cred = v
 			}
 
-			if !tok[cred].Active {
+			// unknown session: 401; a known one is reported with its `active` flag
+			info, known := tok[cred]
+			if !known {
 				w.WriteHeader(http.StatusUnauthorized)
 
 				return
 			}
 
-			json.NewEncoder(w).Encode(map[string]any{"sub": cred, "e": e})
+			json.NewEncoder(w).Encode(map[string]any{"sub": cred, "active": info.Active, "e": e})
 		case strings.HasPrefix(r.URL.Path, "/r/"):
 			if deny[string(body)] {
 				w.WriteHeader(http.StatusForbidden)
@@ -269,6 +272,8 @@ type c11Conf struct {
 	Values     []c11KT   `json:"values,omitempty"`
 	TTL        *int64    `json:"ttl,omitempty"` // nanoseconds
 	Scopes     []string  `json:"scopes,omitempty"`
+	Aud        []string  `json:"aud,omitempty"`     // introspection: assertions.audience
+	Session    bool      `json:"session,omitempty"` // generic authenticator: session_lifespan {active: active}
 	Exprs      []c11Expr `json:"exprs,omitempty"`
 }
 
@@ -278,6 +283,7 @@ type c11Over struct {
 	Values     []c11KT   `json:"values,omitempty"`
 	TTL        *int64    `json:"ttl,omitempty"`
 	Scopes     []string  `json:"scopes,omitempty"`
+	Aud        []string  `json:"aud,omitempty"`
 	Exprs      []c11Expr `json:"exprs,omitempty"`
 	FwdH       []string  `json:"fwdh,omitempty"`
 	FwdC       []string  `json:"fwdc,omitempty"`
@@ -368,6 +374,10 @@ func c11Effective(p c11Conf, o *c11Over) c11Conf {
 	case "intro":
 		if o.Scopes != nil {
 			e.Scopes = o.Scopes
+		}
+
+		if len(o.Aud) != 0 {
+			e.Aud = o.Aud
 		}
 
 		if o.TTL != nil {
@@ -635,6 +645,10 @@ func (env *c11Env) protoConf(p c11Conf) config.Mechanism {
 			as["scopes"] = c11Strs(p.Scopes)
 		}
 
+		if len(p.Aud) != 0 {
+			as["audience"] = c11Strs(p.Aud)
+		}
+
 		c["assertions"] = as
 
 		if p.TTL != nil {
@@ -646,6 +660,10 @@ func (env *c11Env) protoConf(p c11Conf) config.Mechanism {
 		c["identity_info_endpoint"] = c11EpConf(p.Ep)
 		c["authentication_data_source"] = []any{map[string]any{"header": "X-Auth-Data"}}
 		c["subject"] = map[string]any{"id": "sub"}
+
+		if p.Session {
+			c["session_lifespan"] = map[string]any{"active": "active"}
+		}
 
 		if p.HasPayload {
 			c["payload"] = p.Payload.text()
@@ -728,8 +746,17 @@ func (env *c11Env) overConf(kind string, o *c11Over) config.MechanismConfig {
 
 	switch kind {
 	case "intro":
+		as := map[string]any{}
 		if o.Scopes != nil {
-			c["assertions"] = map[string]any{"scopes": c11Strs(o.Scopes)}
+			as["scopes"] = c11Strs(o.Scopes)
+		}
+
+		if len(o.Aud) != 0 {
+			as["audience"] = c11Strs(o.Aud)
+		}
+
+		if len(as) != 0 {
+			c["assertions"] = as
 		}
 	case "remote":
 		if o.HasPayload {
@@ -784,6 +811,8 @@ type c11Outcome struct {
 	Sent   *c11Sent `json:"sent,omitempty"`
 	Sub    string   `json:"sub,omitempty"`
 	Scopes []string `json:"scopes,omitempty"`
+	Aud    []string `json:"aud,omitempty"`
+	Active bool     `json:"active"`
 	Detail string   `json:"detail,omitempty"`
 }
 
@@ -917,19 +946,29 @@ func (env *c11Env) exec(kind, id string, ex c11Executor, q c11Req, cch cache.Cac
 
 	switch kind {
 	case "intro", "gen":
-		o := c11Outcome{Kind: "allow", Sub: res.ID, Scopes: []string{}}
+		o := c11Outcome{Kind: "allow", Sub: res.ID, Scopes: []string{}, Aud: []string{}, Active: true}
 		o.Sent = env.sentOf(res.Attributes["e"])
 
 		if kind == "intro" {
 			if sc, ok := res.Attributes["scope"].(string); ok && sc != "" {
 				o.Scopes = strings.Split(sc, " ")
 			}
+
+			if as, ok := res.Attributes["aud"].([]any); ok {
+				for _, a := range as {
+					if x, ok := a.(string); ok {
+						o.Aud = append(o.Aud, x)
+					}
+				}
+			}
+		} else if act, ok := res.Attributes["active"].(bool); ok {
+			o.Active = act
 		}
 
 		return o, 0
 	}
 
-	o := c11Outcome{Kind: "allow", Scopes: []string{}}
+	o := c11Outcome{Kind: "allow", Scopes: []string{}, Aud: []string{}, Active: true}
 	if m, ok := ctx.Outputs()[id].(map[string]any); ok {
 		o.Sent = env.sentOf(m["e"])
 	}
@@ -1385,7 +1424,7 @@ func (b *c11Binder) inst(c c11Conf) string {
 
 	return b.bind("i", vf.CoqApp("ins", kind, vf.CoqStr(c.ID), ep, vf.CoqStrs(c.FwdH), vf.CoqStrs(c.FwdC), vf.CoqStrs(c.Up),
 		vf.CoqOpt(c.HasPayload, b.tpl(c.Payload)), vf.CoqListOf(c.Values, b.kt), ttl,
-		vf.CoqStrs(c.Scopes), vf.CoqListOf(c.Exprs, b.expr)))
+		vf.CoqStrs(c.Scopes), vf.CoqStrs(c.Aud), vf.CoqBool(c.Session), vf.CoqListOf(c.Exprs, b.expr)))
 }
 
 func (b *c11Binder) req(q c11Req) string {
@@ -1405,10 +1444,10 @@ func (b *c11Binder) outcome(o c11Outcome) string {
 			s = &c11Sent{}
 		}
 
-		return b.bind("o", "(OAllow "+vf.CoqApp("res",
+		return b.bind("o", "(OAllow "+vf.CoqApp("resx",
 			vf.CoqApp("snt", b.str(s.URL), vf.CoqStr(s.Method), vf.CoqListOf(s.Headers, c11CoqKV),
-				vf.CoqListOf(s.Cookies, c11CoqKV), vf.CoqStr(s.Auth), vf.CoqStr(s.Body)),
-			vf.CoqStr(o.Sub), vf.CoqStrs(o.Scopes))+")")
+				vf.CoqListOf(s.Cookies, c11CoqKV), b.str(s.Auth), vf.CoqStr(s.Body)),
+			vf.CoqStr(o.Sub), vf.CoqStrs(o.Scopes), vf.CoqStrs(o.Aud), vf.CoqBool(o.Active))+")")
 	}
 
 	// a panic is an outcome no model run produces
@@ -1435,7 +1474,7 @@ func (env *c11Env) coq(c c11Case, o c11Obs, effs []c11Conf, tab *c11Sha) string 
 	sort.Strings(names)
 
 	for _, k := range names {
-		toks = append(toks, vf.CoqPair(vf.CoqStr(k), vf.CoqPair(vf.CoqBool(c.Tok[k].Active), vf.CoqStrs(c.Tok[k].Scopes))))
+		toks = append(toks, vf.CoqPair(vf.CoqStr(k), "("+vf.CoqBool(c.Tok[k].Active)+", "+vf.CoqStrs(c.Tok[k].Scopes)+", "+vf.CoqStrs(c.Tok[k].Aud)+")"))
 	}
 
 	world := vf.CoqApp("wld", vf.CoqList(toks), vf.CoqStrs(c.Deny))
@@ -1482,10 +1521,10 @@ var (
 
 func c11TokTable() map[string]c11TokInfo {
 	return map[string]c11TokInfo{
-		"t.alice.r":  {Active: true, Scopes: []string{"read"}},
-		"t.alice.rw": {Active: true, Scopes: []string{"read", "write"}},
-		"t.bobby.r":  {Active: true, Scopes: []string{"read"}},
-		"x.carol.r":  {Active: false, Scopes: []string{"read"}},
+		"t.alice.r":  {Active: true, Scopes: []string{"read"}, Aud: []string{"api"}},
+		"t.alice.rw": {Active: true, Scopes: []string{"read", "write"}, Aud: []string{"api", "web"}},
+		"t.bobby.r":  {Active: true, Scopes: []string{"read"}, Aud: []string{"web"}},
+		"x.carol.r":  {Active: false, Scopes: []string{"read"}, Aud: []string{}},
 	}
 }
 
@@ -1606,6 +1645,10 @@ func (env *c11Env) genProto(r *vf.Rand, kind string) c11Conf {
 		}
 	}
 
+	if kind == "gen" && r.Chance(30) {
+		p.Session = true
+	}
+
 	if kind == "gen" && r.Chance(45) {
 		p.HasPayload = true
 		p.Payload = c11Tpl{c11Lit("d="), {K: "auth"}}
@@ -1629,6 +1672,14 @@ func (env *c11Env) genProto(r *vf.Rand, kind string) c11Conf {
 			p.Scopes = []string{"read", "write"}
 		default:
 			p.Scopes = []string{"admin"}
+		}
+
+		switch x := r.Intn(100); {
+		case x < 65:
+		case x < 88:
+			p.Aud = []string{"api"}
+		default:
+			p.Aud = []string{"web", "mobile"}
 		}
 	case "gen":
 		switch x := r.Intn(100); {
@@ -1685,6 +1736,13 @@ func (env *c11Env) genSibling(r *vf.Rand, p c11Conf) (c11Conf, string) {
 	q := p
 	q.Ep.Headers = append([]c11KT(nil), p.Ep.Headers...)
 	q.ID = p.ID + "b"
+
+	if p.Kind == "gen" && r.Chance(30) {
+		// ... nor whether the session lifespan is asserted
+		q.Session = !p.Session
+
+		return q, "sibling:gen-session"
+	}
 
 	if p.Kind == "gen" && r.Chance(30) {
 		// the generic authenticator's key has neither its payload template nor the forwarded names
@@ -1772,10 +1830,16 @@ func (env *c11Env) genOver(r *vf.Rand, p c11Conf) (*c11Over, string) {
 
 	switch p.Kind {
 	case "intro":
-		if r.Chance(75) {
+		if r.Chance(55) {
 			o.Scopes = vf.Pick(r, [][]string{{"read"}, {"admin"}, {"read", "write"}, {"write"}})
 
 			return o, "over:scopes"
+		}
+
+		if r.Chance(60) {
+			o.Aud = vf.Pick(r, [][]string{{"api"}, {"web"}, {"mobile"}})
+
+			return o, "over:audience"
 		}
 
 		o.TTL = vf.Pick(r, []*int64{c11TTL(10 * time.Minute), c11TTL(0)})
@@ -2142,6 +2206,11 @@ func (env *c11Env) corpus() []c11Case {
 			{Kind: "gen", ID: "gb", TTL: five, HasPayload: true, Payload: c11Tpl{c11Lit("d="), {K: "auth"}}, Ep: c11Ep{URL: c11Tpl{c11Lit(base + "/g/id")}, Headers: []c11KT{{K: "X-Cred", T: c11Tpl{{K: "auth"}}}}}}},
 			Insts: []c11InstSpec{{Proto: 0}, {Proto: 1}}, Tok: tok, Deny: []string{}, Rep: -1,
 			Steps: []c11Step{{Inst: 0, Req: g1, Rel: "first"}, {Inst: 1, Req: g1, Rel: "other-instance+sibling:gen-payload"}}},
+		// C11-F10: a session that is not active, cached through the authenticator without session_lifespan, is accepted by the one with it
+		{Protos: []c11Conf{{Kind: "gen", ID: "plain", TTL: five, Ep: c11Ep{URL: c11Tpl{c11Lit(base + "/g/id")}, Method: "GET", Headers: []c11KT{{K: "X-Cred", T: c11Tpl{{K: "auth"}}}}}},
+			{Kind: "gen", ID: "strict", TTL: five, Session: true, Ep: c11Ep{URL: c11Tpl{c11Lit(base + "/g/id")}, Method: "GET", Headers: []c11KT{{K: "X-Cred", T: c11Tpl{{K: "auth"}}}}}}},
+			Insts: []c11InstSpec{{Proto: 0}, {Proto: 1}}, Tok: tok, Deny: []string{}, Rep: -1,
+			Steps: []c11Step{{Inst: 0, Req: c11Req{SubID: "alice", Cred: "x.carol.r"}, Rel: "first"}, {Inst: 1, Req: c11Req{SubID: "alice", Cred: "x.carol.r"}, Rel: "other-instance+sibling:gen-session"}}},
 		// C11-F7: .Outputs in the endpoint URL is not in the key
 		{Protos: []c11Conf{outs}, Insts: []c11InstSpec{{Proto: 0}}, Tok: tok, Deny: []string{}, Rep: 0,
 			Steps: []c11Step{{Inst: 0, Req: qA, Rel: "first"}, {Inst: 0, Req: qB, Rel: "diff:out:foo"}}},
